@@ -1232,6 +1232,7 @@ type pendingRaftLogQuery struct {
 	mu struct {
 		sync.Mutex
 		pending *RequestState
+		stopped bool
 	}
 }
 
@@ -1242,6 +1243,7 @@ func newPendingRaftLogQuery() pendingRaftLogQuery {
 func (p *pendingRaftLogQuery) close() {
 	p.mu.Lock()
 	defer p.mu.Unlock()
+	p.mu.stopped = true
 	if p.mu.pending != nil {
 		p.mu.pending.terminated()
 		p.mu.pending = nil
@@ -1252,6 +1254,9 @@ func (p *pendingRaftLogQuery) add(firstIndex uint64,
 	lastIndex uint64, maxSize uint64) (*RequestState, error) {
 	p.mu.Lock()
 	defer p.mu.Unlock()
+	if p.mu.stopped {
+		return nil, ErrShardClosed
+	}
 	if p.mu.pending != nil {
 		return nil, ErrSystemBusy
 	}
@@ -1276,6 +1281,11 @@ func (p *pendingRaftLogQuery) returned(outOfRange bool,
 	p.mu.Lock()
 	defer p.mu.Unlock()
 	if p.mu.pending == nil {
+		if p.mu.stopped {
+			// the query was terminated by close() while the step worker was
+			// still processing it
+			return
+		}
 		panic("no pending raft log query")
 	}
 
